@@ -53,7 +53,17 @@ def run_source_types(ctx):
         g = a.get("guard")
         gtxt = H.show(g) if g else ""
         key = "arm:%s" % "|".join(heads)
-        if g is not None and (H.local_name(H.strip(g)) in flags or "contains_key" in gtxt):
+        # the test may also sit inside the arm: every push of the arm lies in the then-branch of `if <flag>`
+        inner = False
+        if g is None:
+            guarded = []
+            for x in H.walk(a["body"]):
+                if x.get("k") == "if" and H.local_name(H.strip(x["cond"])) in flags:
+                    guarded += [id(y) for y in H.walk(x["then"]) if y.get("k") == "mcall" and y["method"] == "push"]
+            inner = bool(pushes) and all(id(p_) in guarded for p_ in pushes)
+            if inner:
+                gtxt = "if <sequence-ops flag> { .. } inside the arm"
+        if inner or g is not None and (H.local_name(H.strip(g)) in flags or "contains_key" in gtxt):
             ctx.ok("source-types", key + (":pattern-ref" if "contains_key" in gtxt else ""), "guarded by `%s`" % gtxt[:40], site=a["sp"])
         else:
             ctx.violation("source-types", key, "the %s source arm resolves the identifier to its underlying event type and adds it to the stream's routes without the sequence-operations test (guard: %s): a plain derived stream over another stream is routed the raw events as well as the upstream's outputs" % ("/".join(heads), gtxt or "none"), site=a["sp"])
